@@ -65,3 +65,30 @@ Qed.
 
 Corollary rx_search_span r t pos a b : rx_search r t pos = Some (a, b) -> a <= b.
 Proof. intros H. now apply rx_search_spec in H. Qed.
+
+(** a literal pattern matches exactly its text *)
+Lemma skipn_nth_cons {A} (t : list A) : forall i x, nth_error t i = Some x -> skipn i t = x :: skipn (S i) t.
+Proof.
+  induction t as [|y t IH]; intros [|i] x H; try discriminate.
+  - now injection H as ->.
+  - cbn [nth_error] in H. cbn [skipn]. rewrite (IH i x H). reflexivity.
+Qed.
+
+Lemma m_lit t : forall s i k e, m t (Lit s) i k = Some e ->
+  firstn (length s) (skipn i t) = s /\ k (i + length s) = Some e.
+Proof.
+  induction s as [|c s IH]; intros i k e H; cbn [Lit m] in H.
+  - cbn [length firstn]. now rewrite Nat.add_0_r.
+  - destruct (nth_error t i) as [x|] eqn:En; [|discriminate].
+    destruct (N.eqb x c) eqn:Ex; [|discriminate]. apply N.eqb_eq in Ex. subst x.
+    apply IH in H as [H1 H2]. rewrite (skipn_nth_cons t i c En). cbn [length firstn]. rewrite H1.
+    split; [reflexivity|]. now replace (i + S (length s)) with (S i + length s) by lia.
+Qed.
+
+Theorem rx_search_lit s t pos a b : rx_search (Lit s) t pos = Some (a, b) ->
+  b = a + length s /\ firstn (b - a) (skipn a t) = s.
+Proof.
+  intros H. apply rx_search_spec in H as (_ & _ & H & _). unfold match_at in H.
+  apply m_lit in H as [H1 H2]. injection H2 as <-. split; [reflexivity|].
+  now replace (a + length s - a) with (length s) by lia.
+Qed.
